@@ -73,6 +73,111 @@ theorem getters_refine {i : Index} (hi : Inv i) :
   · unfold Impl.memused Spec.memused Spec.streamCount; rw [hi.rcount, hsc]
   · unfold Impl.paddingSize Spec.paddingSize; rw [hi.rcount, hi.lsize]
 
+theorem prealloc_inv {i : Index} (hi : Inv i) (n : Nat) : abs (Impl.prealloc i n) = abs i ∧ Inv (Impl.prealloc i n) :=
+  ⟨rfl, ⟨hi.ne, hi.scount, hi.streams, hi.bases, hi.unc, hi.total, hi.rcount, hi.lsize, hi.checks, hi.valid⟩⟩
+
+/-- how the results of the Record loop over the two index representations relate (allocation failure apart) -/
+def RecSim (a : (Ret × Nat) ⊕ (Index × List UInt8 × Nat)) (b : (Ret × Nat) ⊕ (SpecIndex × List UInt8 × Nat)) : Prop :=
+  match a with
+  | .inl (r1, u1) => r1 = .memError ∨ b = .inl (r1, u1)
+  | .inr (s1, b1, u1) => b = .inr (abs s1, b1, u1) ∧ Inv s1
+
+theorem decodeRecords_sim : ∀ (n : Nat) (si : Index) (bs : List UInt8) (used : Nat), Inv si →
+    RecSim (decodeRecords Impl.decOps n si bs used) (decodeRecords Spec.decOps n (abs si) bs used)
+  | 0, si, bs, used, hi => by simp [decodeRecords, RecSim, hi]
+  | n + 1, si, bs, used, hi => by
+    unfold decodeRecords
+    cases h1 : vliDecodeGo bs 0 0 used with
+    | more u => simp [RecSim]
+    | bad u => simp [RecSim]
+    | done unpadded u1 =>
+      simp only
+      split
+      · simp [RecSim]
+      · cases h2 : vliDecodeGo (bs.drop (u1 - used)) 0 0 u1 with
+        | more u => simp [RecSim]
+        | bad u => simp [RecSim]
+        | done uncompressed u2 =>
+          simp only
+          have hI : Impl.decOps.append si unpadded uncompressed = Impl.append si unpadded uncompressed := rfl
+          have hS : Spec.decOps.append (abs si) unpadded uncompressed = Spec.append (abs si) unpadded uncompressed := rfl
+          rw [hI, hS]
+          rcases Impl.append_refines hi unpadded uncompressed with hm | ⟨hr, ha, hinv⟩
+          · -- allocation failure in the concrete model
+            rw [hm]
+            exact Or.inl rfl
+          · cases hip : Impl.append si unpadded uncompressed with
+            | mk r1 s1 =>
+              cases hsp : Spec.append (abs si) unpadded uncompressed with
+              | mk r2 s2 =>
+                rw [hip, hsp] at hr ha
+                rw [hip] at hinv
+                simp only at hr ha hinv
+                subst hr
+                subst ha
+                cases r1
+                case ok => exact decodeRecords_sim n s1 _ u2 hinv
+                all_goals exact Or.inr rfl
+
+/-- `index_decode` over the concrete index and over the specification give the same answer: same `lzma_ret`, same
+    number of consumed bytes, and on success an index whose abstraction is the specification's result -/
+theorem decode_refines (memlimit : Nat) (bs : List UInt8) :
+    (Impl.decode memlimit bs).ret = .memError
+    ∨ ((Impl.decode memlimit bs).ret = (Spec.decode memlimit bs).ret
+       ∧ (Impl.decode memlimit bs).used = (Spec.decode memlimit bs).used
+       ∧ (Impl.decode memlimit bs).memNeeded = (Spec.decode memlimit bs).memNeeded
+       ∧ (Impl.decode memlimit bs).index.map abs = (Spec.decode memlimit bs).index
+       ∧ ∀ i, (Impl.decode memlimit bs).index = some i → Inv i) := by
+  unfold Impl.decode Spec.decode decodeG
+  cases bs with
+  | nil => right; simp
+  | cons b0 rest =>
+    simp only
+    split
+    · right; simp
+    · cases h1 : vliDecodeGo rest 0 0 1 with
+      | more u => right; simp
+      | bad u => right; simp
+      | done count u0 =>
+        simp only
+        split
+        · right; simp
+        · have hp := prealloc_inv inv_init count
+          have hpre : Impl.decOps.prealloc Impl.decOps.init count = Impl.prealloc Impl.init count := rfl
+          have hspre : Spec.decOps.prealloc Spec.decOps.init count = abs (Impl.prealloc Impl.init count) := by
+            rw [hp.1, abs_init]; rfl
+          rw [hpre, hspre]
+          have hsim := decodeRecords_sim count (Impl.prealloc Impl.init count) ((b0 :: rest).drop u0) u0 hp.2
+          cases hi : decodeRecords Impl.decOps count (Impl.prealloc Impl.init count) ((b0 :: rest).drop u0) u0 with
+          | inl x =>
+            obtain ⟨r1, u1⟩ := x
+            rw [hi] at hsim
+            rcases hsim with hm | hs
+            · left; simp [hm]
+            · right; rw [hs]; simp
+          | inr x =>
+            obtain ⟨s1, b1, u1⟩ := x
+            rw [hi] at hsim
+            obtain ⟨hs, hinv⟩ := hsim
+            right
+            rw [hs]
+            simp only
+            have e1 : Impl.decOps.recordCount s1 = Spec.decOps.recordCount (abs s1) := hinv.rcount
+            have e2 : Impl.decOps.listSize s1 = Spec.decOps.listSize (abs s1) := hinv.lsize
+            rw [e1, e2]
+            cases matchBytes (List.replicate (indexPadding (Spec.decOps.recordCount (abs s1)) (Spec.decOps.listSize (abs s1))) 0) b1 u1 with
+            | inl y => simp
+            | inr y =>
+              obtain ⟨rest2, u2⟩ := y
+              simp only
+              cases matchBytes (crc32Bytes ((b0 :: rest).take u2)) rest2 u2 with
+              | inl z => simp
+              | inr z =>
+                simp only [Option.map_some, true_and]
+                intro i hi'
+                have : i = s1 := by simpa using hi'.symm
+                subst this; exact hinv
+
 end Impl
 
 /-- Every history: the abstraction of the concrete state is the specification state, and the invariant holds. -/
